@@ -1,6 +1,7 @@
 """C08 - one facet only: the capture set computed for a closure body is exactly its free variables that are in scope
 (lift::collect_captured), so a lifted closure sees every outer variable it uses and rebinds none of its own."""
-import json
+import json, os, re, subprocess, tempfile, shutil
+from vlib import build
 import z3
 from vlib import e2
 from vlib.core import Ob, Finding
@@ -216,3 +217,101 @@ def ob_struct_literal_fields(r, tier, seed, nfields=3):
 _c08_obl2 = obligations
 def obligations():
     return _c08_obl2() + [Ob('O8.3-struct-literal-closure-fields', 'a struct literal rewrites exactly the fields that receive a closure', ob_struct_literal_fields, ('quick', 'thorough'), 2, {})]
+
+# ----------------------------------------------------------------------------- O8.4 a type that mentions a closure environment struct is recognised as containing a closure
+def goml_closure_ty(sh):
+    k = sh['k']
+    if k == 'TStruct': return '(int32) -> int32' if sh['name'] == 'closure_env_f_0' else 'P'
+    if k == 'TInt32': return 'int32'
+    if k == 'TTuple': return '(' + ', '.join(goml_closure_ty(x) for x in sh['a']) + ')'
+    if k == 'TArray': return '[%s; 1]' % goml_closure_ty(sh['a'][0])
+    if k == 'TFunc': return '(%s) -> %s' % (', '.join(goml_closure_ty(x) for x in sh['a'][:-1]), goml_closure_ty(sh['a'][-1]))
+    raise Unsupported('no goml spelling for ' + k)
+
+def replay_contains_closure(sh):
+    """a function whose declared result type is the witness type and whose body builds a value with closures at the closure positions:
+    lifting must rewrite the declared result type (the rewritten type mentions a closure_env struct)"""
+    helpers = []
+    def value(s):
+        k = s['k']
+        if k == 'TStruct': return '|x: int32| x + n' if s['name'] == 'closure_env_f_0' else 'P { v: n }'
+        if k == 'TInt32': return 'n'
+        if k == 'TTuple': return '(' + ', '.join(value(x) for x in s['a']) + (',' if len(s['a']) == 1 else '') + ')'
+        if k == 'TArray': return '[' + value(s['a'][0]) + ']'
+        if k == 'TFunc':
+            if any('closure_env_f_0' in json.dumps(x) for x in s['a'][:-1]): raise Unsupported('closure in parameter position: no value of that type is built by the replay')
+            name = 'h%d' % len(helpers)
+            helpers.append('fn %s(%s) -> %s { %s }' % (name, ', '.join('n: %s' % goml_closure_ty(x) if i == 0 else 'a%d: %s' % (i, goml_closure_ty(x)) for i, x in enumerate(s['a'][:-1])) or 'n: int32', goml_closure_ty(s['a'][-1]), value(s['a'][-1])))
+            return name
+        raise Unsupported('no value for ' + k)
+    body = value(sh)
+    src = 'struct P { v: int32 }\n' + '\n'.join(helpers) + '\nfn mk(n: int32) -> %s { %s }\nfn main() -> unit { let r = mk(1); () }\n' % (goml_closure_ty(sh), body)
+    d = tempfile.mkdtemp(prefix='vf-c08-')
+    try:
+        open(os.path.join(d, 'main.gom'), 'w').write(src)
+        out = subprocess.run([build.compiler_bin(), 'run', '--dump-lift', os.path.join(d, 'main.gom')], capture_output=True, text=True, timeout=60)
+    finally: shutil.rmtree(d, ignore_errors=True)
+    txt = out.stdout + out.stderr
+    m = re.search(r'^fn mk\([^\n]*\) -> ([^\n]*) \{$', txt, re.M)
+    if not m: raise Unsupported('replay program not lifted: ' + txt.strip()[:200])
+    return 'closure_env' not in m.group(1), 'goml `%s`: after lifting mk is declared to return `%s`' % (src.replace('\n', ' | '), m.group(1))
+
+def ob_contains_closure(r, tier, seed, depth, top, inner, vec_len=(1, 1)):
+    from mirsym.engine import Cell_
+    from mirsym.lazy import force as lforce
+    from props.enc_ob import shape
+    W = e2.fresh_world(CRATES); tt = W.tt
+    TY = tt.find_adt(['tast', 'Ty'], 'compiler'); CI = [a for a in tt.by_name['ClosureTypeInfo'] if a.crate == 'compiler'][0]
+    ST = [a for a in tt.by_name['State'] if a.crate == 'compiler' and 'lift' in '::'.join(a.path)][0]
+    handled = ['TStruct', 'TTuple', 'TArray', 'TFunc', 'TApp']
+    r.bounds = 'types of depth <= %d: top constructor in %s, inner in %s, leaves int32 / struct P / the closure environment struct closure_env_f_0 (registered in State.closure_types); component lists of %d..%d' % (depth, top, inner, vec_len[0], vec_len[1])
+    r.assumptions = ['oracle: State::ty_contains_closure(t) <=> the name of a registered closure environment struct occurs at some position of t - over the constructors the function distinguishes (%s); Vec and Ref are outside: the lifting design tracks closure structs per variable and does not propagate them through Vec / Ref (DESIGN 5.7)' % handled]
+    class S2(Spec):
+        def make_adt(s, ex, adt, d, path, subst):
+            if adt.name == 'Ty': s.allowed['Ty'] = top if d == depth else inner
+            return Spec.make_adt(s, ex, adt, d, path, subst)
+    spec = S2(tt, allowed={'Ty': top}, leaves={'Ty': ['TInt32', 'TStruct']}, strings=('closure_env_f_0', 'P'), vec_len=vec_len, int_choices=[1], depth=depth,
+              field_hooks={('Ty', 'TApp', 'ty'): lambda sp, ex, d, p: mkbox(Agg(TY.key, TY.vindex('TStruct'), [mkstr('P')]))})
+    def entry(ex):
+        t = lforce(ex, spec.root(ex, 'tast::Ty', tag='t')); tsh = shape(t, TY)
+        genv2 = ex.call('env::GlobalTypeEnv::new_empty', []); monoenv = ex.call('mono::GlobalMonoEnv::from_genv', [genv2])
+        liftenv = ex.call('lift::GlobalLiftEnv::from_monoenv', [monoenv])
+        hl = {0: liftenv, 1: Agg('compiler::env::Gensym', 0, [Cell_(0)])}
+        state = ex.call('lift::State::new', [Ref(hl, 0), Ref(hl, 1)])
+        ct = state.fields[[f[0] for f in ST.variants[0].fields].index('closure_types')]
+        ct.keys.append(mkstr('closure_env_f_0')); ct.vals.append(Agg(CI.key, 0, [mkstr('apply0')]))
+        h = {0: state, 1: t}
+        res = ex.call('lift::State::ty_contains_closure', [Ref(h, 0), Ref(h, 1)])
+        if not isinstance(res, bool): res = ex.branch_bool(res)
+        return tsh, bool(res)
+    res = e2.explore(r, W, entry, [])
+    def occurs(sh): return (sh['k'] == 'TStruct' and sh.get('name') == 'closure_env_f_0') or any(occurs(x) for x in sh.get('a', [])) or ('base' in sh and occurs(sh['base']))
+    def under(sh, parent=None):
+        if sh['k'] == 'TStruct' and sh.get('name') == 'closure_env_f_0': return parent
+        for x in sh.get('a', []):
+            u = under(x, sh['k'])
+            if u is not None: return u
+        return None
+    for p in res:
+        r.cases += 1
+        if p.kind != 'ok':
+            if not any(f.key == 'panic' for f in r.findings): r.findings.append(Finding('panic', 'ty_contains_closure panics: %s' % str(p.value)[:200], {}, False, 'not replayed'))
+            continue
+        tsh, got = p.value; want = occurs(tsh)
+        if want: r.nontrivial += 1
+        if got != want:
+            key = ('closure-not-recognised:under-%s' % under(tsh)) if want else 'closure-invented'
+            if any(f.key == key for f in r.findings): continue
+            try: ok_, detail = replay_contains_closure(tsh) if want else (True, 'value returned by the real State::ty_contains_closure MIR')
+            except Exception as e_: ok_, detail = False, 'replay failed: %s' % str(e_)[:200]
+            if not ok_ and 'replay failed' in detail and 'Unsupported' not in detail and key.startswith('closure-not'):
+                pass
+            r.findings.append(Finding(key, 'ty_contains_closure(%s) = %s, but the closure environment struct %s' % (json.dumps(tsh)[:200], got, 'occurs in it' if want else 'does not occur in it'), {'type': tsh}, ok_, detail))
+        elif len(r.samples) < 3 and want: r.samples.append({'type': json.dumps(tsh)[:160], 'contains': got})
+
+_c08_obl3 = obligations
+def obligations():
+    comp = ['TTuple', 'TArray', 'TFunc', 'TStruct']
+    return _c08_obl3() + [Ob('O8.4-contains-closure-d2', 'a type mentions a closure environment struct iff ty_contains_closure says so: depth 2', ob_contains_closure, ('quick', 'thorough'), 5, dict(depth=2, top=comp + ['TApp'], inner=comp + ['TInt32'])),
+                          Ob('O8.4-contains-closure-d2w', 'same, depth 2, component lists of 1..2', ob_contains_closure, ('thorough',), 50, dict(depth=2, top=comp, inner=comp + ['TInt32'], vec_len=(1, 2))),
+                          Ob('O8.4-contains-closure-d3', 'same, depth 3', ob_contains_closure, ('thorough',), 50, dict(depth=3, top=['TTuple', 'TArray', 'TFunc'], inner=['TTuple', 'TFunc', 'TStruct']))]
